@@ -1027,7 +1027,7 @@ FAM_SMALL = dict(mesh=2, const=2, coef=1, vcoef=1, geo=1, index=1, idx=1, sum=1,
 # every order, a coefficient on the mixed space over a MeshSequence; run with PLACEMENT histories
 # (Boundaries of SigCounters.tla) over all counters at once
 FAM_CROSS = dict(mesh=2, const=2, scoef=1, comp=1, sum=1, prod=1)
-FAM_CROSS_T = dict(mesh=2, const=3, scoef=1, comp=1, sum=1, prod=2)
+FAM_CROSS_T = dict(mesh=2, const=3, coef=1, scoef=1, comp=1, sum=1, prod=2)
 CROSS_BOUNDARIES = {"quick": [10, 100], "thorough": [10, 100, 1000]}
 
 
@@ -1866,7 +1866,8 @@ def cross_chains(ctx, job, rng):
             continue
         chosen.append(k)
         n += len(by_script[k]["offs"])
-    progs = {k: {"kind": "script", "script": by_script[k]["script"]} for k in chosen}
+    # ("family": the runs of these programs are kept apart from runs of the same script in other parts)
+    progs = {k: {"kind": "script", "script": by_script[k]["script"], "family": "cross"} for k in chosen}
     made = {}
     for k in chosen:
         made[k] = measure(progs[k])
@@ -2067,10 +2068,9 @@ def conformance_runs(ctx, chk, emit_jobs, transcription, base, rng, budget, dead
     t1 = time.time()
     # the first group (scripts with model-predicted differences) always runs; `extra`: chains of
     # another part that share this round of interpreters (their cases are returned as "others")
-    cases = chk.run_chains(chains[:1] + list(extra))
+    chains[0]["must"] = True
+    cases = chk.run_chains(chains[:1] + list(extra) + chains[1:], deadline)
     others = {k: cases.pop(k) for k in [k for k, c in cases.items() if c.source != "tlc-emitted"]}
-    for k, c in chk.run_chains(chains[1:], deadline).items():
-        cases[k] = c
     t2 = time.time()
     observed, index = [], []
     for key, case in sorted(cases.items()):
@@ -2187,7 +2187,7 @@ def corpus_chains(ctx, base, rng):
     ctx.cov["random_scripts_rejected_by_ufl"] = dropped
     pos = lambda p, src, j, only: chain_positions(p, src, made[prog_key(p)], base, j=j, only=only)  # noqa: E731
     if quick:
-        add_groups(recipes, 8, lambda p, n: chain_standard(p, "recipe") + chain_phased(p, "recipe", rng, base))
+        add_groups(recipes, 9, lambda p, n: chain_standard(p, "recipe") + chain_phased(p, "recipe", rng, base))
         add_groups(scripts, 6, lambda p, n: zero_step(p, "random-script") + pos(p, "random-script", n, n) + chain_phased(p, "random-script", rng, base))
     else:
         first = len(chains)
@@ -2218,12 +2218,9 @@ def corpus_part(ctx, chk, base, rng, deadline):
     chains = corpus_chains(ctx, base, rng)
     ctx.cov["corpus_chains_planned"] = len(chains)
     t1 = time.time()
-    cases = chk.run_chains([c for c in chains if c.get("must")])
-    for k, c in chk.run_chains([c for c in chains if not c.get("must")], deadline).items():
-        if k in cases:
-            cases[k].runs += c.runs
-        else:
-            cases[k] = c
+    # one pool for all chains: those marked `must` (recipes placed at the digit boundaries) come first
+    # and ignore the deadline (runs of one program in several chains are merged by run_chains)
+    cases = chk.run_chains([c for c in chains if c.get("must")] + [c for c in chains if not c.get("must")], deadline)
     print(f"  corpus: {len(chains) - ctx.cov.get('chains_not_run_deadline', 0)} of {len(chains)} processes ({sum(len(c.runs) for c in cases.values())} runs of {len(cases)} programs) in {time.time() - t1:.1f}s", flush=True)
     stats = {"programs": 0, "invalid_random_scripts": 0, "runs": 0, "programs_with_discrepancy": 0}
     for key, case in cases.items():
@@ -2291,7 +2288,7 @@ def run(ctx, args):
     if cross_intended is not None:
         intended.append(cross_intended)
     rng = random.Random(1000003 * ctx.seed + (1 if quick else 2))
-    ex = ThreadPoolExecutor(max_workers=4 if quick else 2)  # quick: 4 TLC x 2 workers (7 runs = 2 rounds), thorough: 2 TLC x 4 workers
+    ex = ThreadPoolExecutor(max_workers=3 if quick else 2)  # quick: 3 TLC x 2 workers, thorough: 2 TLC x 4 workers
     try:
         order = [cross_emit] + emit + coded + intended
         futs = {id(j): ex.submit(j.run, base) for j in order}
